@@ -6,14 +6,16 @@ package regular
 //vsym:model os.Stat m01Stat
 //vsym:model os.ReadFile m01ReadFile
 //vsym:model os.IsNotExist m01IsNotExist
+//vsym:model path/filepath.Glob m01Glob
 //vsym:model crypto/rand.Read m01RandRead
 //vsym:model golang.org/x/crypto/ssh.ParseAuthorizedKey m01ParseAuthorizedKey
 //vsym:replay same-harness
 //vsym:expect-cover C01.real-accepts C01.real-rejects-policy C01.real-rejects-hardkey C01.real-rejects-signature C01.real-rejects-nofile C01.allauthfailed C01.model-handler-generates C01.pub-file-used C01.bare-file-used
-//vsym:bound H01_run: 1..2 consecutive runs; handler list of 0..2 (thorough 0..3) slots, each the real regular handler (at most once) or a model handler with arbitrary verdict; namespace policy NONS / NSOK / 4 arbitrary bytes; hard-key flag symbolic; log name of 1..2 symbolic lower-case letters; the two candidate key files each absent / unreadable / holding the registered key, another user's key or garbage; the forwarded agent holds an arbitrary subset of the keys and answers a sign request with an error, an honest signature, a signature by another key it holds, a signature over other bytes (e.g. an earlier challenge), or garbage; every challenge byte symbolic
+//vsym:bound H01_run: 1..2 consecutive runs; handler list of 0..2 (thorough 0..3) slots, each the real regular handler (at most once) or a model handler with arbitrary verdict; namespace policy NONS / NSOK / 4 arbitrary bytes; hard-key flag symbolic; log name of 1..2 symbolic letters of either case; the directory also holds other users' key files (mallory, the lower-cased login name, a name that begins with the login name); the two candidate key files each absent / unreadable / holding the registered key, another user's key or garbage; the forwarded agent holds an arbitrary subset of the keys and answers a sign request with an error, an honest signature, a signature by another key it holds, a signature over other bytes (e.g. an earlier challenge), or garbage; every challenge byte symbolic
 //vsym:assume signatures are unforgeable: the agent can produce a blob that verifies under key K only if it holds K (model of ssh.PublicKey.Verify); crypto/rand yields arbitrary bytes (unpredictability itself is not decided); os file access and ParseAuthorizedKey are modelled; path.Join is executed from source for names without '/' and '.'
 
 import (
+	"strings"
 	"context"
 	"crypto/ed25519"
 	crand "crypto/rand"
@@ -80,6 +82,14 @@ func m01Which(name string) int {
 	if name == w01Dir+"/mallory.pub" {
 		return 3 // the directory also holds the other users' keys
 	}
+	// ... among them a user whose name begins with this login name
+	if vEqString(name, w01Dir+"/"+w01LogName+"x.pub") {
+		return 3
+	}
+	// ... and the user whose name is this login name in lower case
+	if low := strings.ToLower(w01LogName); !vEqString(low, w01LogName) && vEqString(name, w01Dir+"/"+low+".pub") {
+		return 3
+	}
 	return 0
 }
 
@@ -101,6 +111,43 @@ func m01Stat(name string) (os.FileInfo, error) {
 		return nil, m01NotExist{}
 	}
 	return nil, nil
+}
+
+// m01Glob: the directory as filepath.Glob sees it, for patterns "<prefix>*"
+// (sorted matches); the directory holds the two files of the login name (in
+// their states) and the other users' key files.
+func m01Glob(pattern string) ([]string, error) {
+	if !strings.HasSuffix(pattern, "*") || strings.ContainsAny(pattern[:len(pattern)-1], "*?[\\") {
+		panic("m01Glob: only prefix patterns are modelled")
+	}
+	prefix := pattern[:len(pattern)-1]
+	var names []string
+	if w01Bare != f01Absent {
+		names = append(names, w01LogName)
+	}
+	if w01Pub != f01Absent {
+		names = append(names, w01LogName+".pub")
+	}
+	names = append(names, w01LogName+"x.pub", "mallory.pub")
+	if low := strings.ToLower(w01LogName); !vEqString(low, w01LogName) {
+		names = append(names, low+".pub")
+	}
+	var out []string
+	for _, n := range names {
+		full := w01Dir + "/" + n
+		if !strings.HasPrefix(full, prefix) {
+			continue
+		}
+		// insert in lexical order
+		i := len(out)
+		for i > 0 && strings.Compare(out[i-1], full) > 0 {
+			i--
+		}
+		out = append(out, "")
+		copy(out[i+1:], out[i:])
+		out[i] = full
+	}
+	return out, nil
 }
 
 func m01IsNotExist(err error) bool {
@@ -415,6 +462,10 @@ func n01Setup() string {
 	if w01LogName != "mallory" {
 		write("mallory.pub", f01OtherUser)
 	}
+	if low := strings.ToLower(w01LogName); low != w01LogName && low != "mallory" {
+		write(low+".pub", f01OtherUser)
+	}
+	write(w01LogName+"x.pub", f01OtherUser)
 	return dir
 }
 
@@ -426,7 +477,8 @@ func H01_run() {
 	n := vChoose(2, "log-name-len") + 1
 	w01LogName = vNondetString("logname", n)
 	for i := 0; i < n; i++ {
-		vAssume(vAnd(w01LogName[i] >= 'a', w01LogName[i] <= 'z'))
+		c := w01LogName[i]
+		vAssume(vOr(vAnd(c >= 'a', c <= 'z'), vAnd(c >= 'A', c <= 'Z'))) // login names are case-sensitive
 	}
 	w01Pub = vChoose(5, "pub-file")
 	w01Bare = vChoose(5, "bare-file")
